@@ -596,6 +596,8 @@ func checkCmd(args []string) {
 		"inlined_callees":          len(e.inlined),
 		"external_callees_assumed": sortedKeys(e.externals),
 		"assumed_entry_preconditions":     entryPreconditions(e, results, isRoot),
+		"excluded_fields_keeps":           keepsClauses(e, results),
+		"abstract_spec_functions":         abstractSpecs(e),
 		"contracts_applied_at_call_sites": contractsApplied(e, false),
 		"assumed_contracts_applied":       contractsApplied(e, true),
 		"interface_calls_assumed":  sortedKeys(e.invokes),
@@ -673,6 +675,31 @@ func retFamily(name string) string {
 
 // entryPreconditions lists the requires clauses of functions that have no caller inside the scope of this run:
 // nothing in the run establishes them, so they are assumptions about the state the function is entered in.
+// keepsClauses: fields excluded by name from the C05 reset obligations (reviewed exclusions, each with its reason in
+// the contract file).
+func keepsClauses(e *Engine, results []*FnResult) []string {
+	var out []string
+	for _, r := range results {
+		if ct := e.contracts[r.Key]; ct != nil && len(ct.Keeps) > 0 {
+			out = append(out, r.Key+": keeps "+strings.Join(ct.Keeps, " "))
+		}
+	}
+	sort.Strings(out)
+	return out
+}
+
+// abstractSpecs: uninterpreted spec functions (only "equal arguments give equal results" is assumed about them).
+func abstractSpecs(e *Engine) []string {
+	var out []string
+	for _, sp := range e.specsByName {
+		if sp.Rec && sp.Body == nil {
+			out = append(out, sp.Name)
+		}
+	}
+	sort.Strings(out)
+	return out
+}
+
 func entryPreconditions(e *Engine, results []*FnResult, isRoot map[*ssa.Function]bool) []string {
 	called := map[*ssa.Function]bool{}
 	for _, r := range results {
